@@ -30,9 +30,33 @@ NAMES = ["a", "b", "k", "v", "id", "x y", "K", None]
 
 
 # ------------------------------------------------------------------------------------------ building / reading
-def build_table(cols):
-    """cols: list of (name, values) -> Table (every column a fresh Vector)"""
-    return S.Table([S.Vector(list(vals), name=name) for name, vals in cols])
+def build_table(cols, derived=True):
+    """cols: list of (name, values) -> Table with exactly these names and cells.
+    Which way the table comes into being is a deterministic function of the case (no extra randomness): freshly built, a
+    copy, a row slice or an all-True mask of a longer / equal table, or stacked with >> - operations under test get
+    derived objects as often as fresh ones (their internal flags, caches and registrations differ, their contents do not)."""
+    fresh = S.Table([S.Vector(list(vals), name=name) for name, vals in cols])
+    n = len(cols[0][1]) if cols else 0
+    mode = (sum(len(str(nm)) for nm, _ in cols) + n + len(cols)) % 5 if (derived and cols) else 0
+    try:
+        if mode == 1:
+            t = fresh.copy()
+        elif mode == 2 and n >= 1:
+            longer = S.Table([S.Vector(list(vals) + [vals[0]], name=name) for name, vals in cols])
+            t = longer[0:n]
+        elif mode == 3:
+            t = fresh[S.Vector([True] * n)] if n else fresh[S.Vector([], dtype=bool)]
+        elif mode == 4 and len(cols) >= 2:
+            t = S.Vector(list(cols[0][1]), name=cols[0][0])
+            for name, vals in cols[1:]:
+                t = t >> S.Vector(list(vals), name=name)
+        else:
+            return fresh
+    except Exception:  # noqa: BLE001  (a derivation the library refuses for this shape: the fresh table serves)
+        return fresh
+    if not isinstance(t, S.Table) or snapshot_table(t) != snapshot_table(fresh):
+        return fresh          # (whether derivations preserve names / dtypes / cells is C02 / C07 / C18's matter, not this helper's)
+    return t
 
 
 def cells(t):
